@@ -69,7 +69,7 @@ def poke_histories(h, i, share):
 
 def run(ctx):
     rng = ctx.rng
-    n = ctx.n(330, 2600)
+    n = ctx.n(290, 2400)
     histories = CORPUS + [G.history_c10(rng) for _ in range(n)]
     n = len(histories)
     want = ("read", "build", "edit", "write")
